@@ -24,6 +24,7 @@ void fmc_begin(void);                 // open the exploration window (thread 0)
 void fmc_end(void) __attribute__((noreturn));  // execution finished OK
 void fmc_fail(const char* fmt, ...) __attribute__((noreturn, format(printf, 1, 2)));
 void fmc_yield(void);                 // polite yield: cost-free choice point
+void fmc_wait_threads(void);          // thread 0: block until all other kernel threads exited
 void fmc_obs(uint64_t v);             // fold a value into the outcome hash
 void fmc_progress(void);              // tell the fair scheduler something changed
 int fmc_param(const char* name, int deflt);  // -Dname=value from the command line
@@ -31,6 +32,7 @@ void fmc_log(const char* fmt, ...) __attribute__((format(printf, 1, 2)));  // re
 int fmc_tid(void);                    // kernel-thread index 0..3
 int fmc_nthreads(void);
 int fmc_exploring(void);
+int fmc_tso_mode(void);                // 1 when stores may be delayed (x86-TSO runs, -S>0)
 uint64_t fmc_steps(void);
 
 // virtual timer (timerfd replaced by an eventfd): inject k expirations
